@@ -242,7 +242,7 @@ contract("iface::Dumps.__call__", returns="Any",
          raises=[{"cls": "Exception", "ensures": [("recorded", "prefix_of(old(CALLS), CALLS)")]}])
 
 # ---------------------------------------------------------------- MemoryLogger (C16, C14, C13)
-fields("MemoryLogger", messages="list[dict]", serializers="list", tracebackMessages="list[dict[reason=Any;*=Any]]", _failed_validations="list",
+fields("MemoryLogger", messages="list[dict]", serializers="list[Opt[_MessageSerializer]]", tracebackMessages="list[dict[reason=Any;*=Any]]", _failed_validations="list",
        _lock="Any", _json_default="role:JsonDefault")
 fields("MemoryLogger$protected", messages="_lock", serializers="_lock", tracebackMessages="_lock", _failed_validations="_lock")
 contract("iface::LockedBody.__call__", returns="Any",
